@@ -1201,9 +1201,9 @@ package mcp
 //@ func parseCallToolResult
 //@   loop 1 invariant[C02 one-decoded-item-per-wire-item-so-far] len(result.Content) == rangeindex + 1 && rangeindex + 1 <= len(contentArr)
 //@   before call parseContent#1 assert[C02 items-are-decoded-in-wire-order] asany(arg0) == contentArr[rangeindex + 1]
-//@   before call return#6 assert[C02 as-many-items-as-on-the-wire] ret1 == nil && !isnil(contents) ==> istype(contents, []interface{}) && len(ret.Content) == len(contents.([]interface{}))
-//@   before call return#6 assert[C02 error-flag-is-kept] ret1 == nil && ("isError" in jsonContent) && istype(jsonContent["isError"], bool) ==> ret.IsError == jsonContent["isError"].(bool)
-//@   before call return#6 assert[C02 structured-content-is-kept] ret1 == nil && ("structuredContent" in jsonContent) ==> ret.StructuredContent == jsonContent["structuredContent"]
+//@   before call return#0 assert[C02 as-many-items-as-on-the-wire] ret1 == nil && !isnil(contents) ==> istype(contents, []interface{}) && len(ret.Content) == len(contents.([]interface{}))
+//@   before call return#0 assert[C02 error-flag-is-kept] ret1 == nil && ("isError" in jsonContent) && istype(jsonContent["isError"], bool) ==> ret.IsError == jsonContent["isError"].(bool)
+//@   before call return#0 assert[C02 structured-content-is-kept] ret1 == nil && ("structuredContent" in jsonContent) ==> ret.StructuredContent == jsonContent["structuredContent"]
 //@
 // a handler's or peer's message is carried as data: every format string is a constant
 //@ sweepscope[C02] kinds=constfmt files=client.go,handler.go,jsonrpc.go,logger.go,manager_lifecycle.go,manager_prompt.go,manager_resource.go,manager_tools.go,mcp_messages.go,mcp_notification.go,mcp_prompts.go,mcp_resources.go,mcp_tools.go,mcp_types.go,notifier.go,responder.go,responder_json.go,responder_sse.go,retry.go,server.go,session.go,sse_client.go,sse_server.go,stdio_client.go,stdio_server.go,streamable_client.go,streamable_server.go,transport_http.go,transport_stdio.go,typed_handlers.go,utils_json.go
